@@ -93,6 +93,13 @@ func (u *Unit) loopEnv(st *State, fr *Frame, head *ssa.BasicBlock) *SpecEnv {
 			env.vars[p.Name()] = fr.params[i]
 		}
 	}
+	for _, in := range head.Instrs {
+		if nx, ok := in.(*ssa.Next); ok {
+			if rg, ok := nx.Iter.(*ssa.Range); ok && st.iters[rg] != "" {
+				env.vars["$pos"] = intVal(st.iters[rg])
+			}
+		}
+	}
 	if cell, _ := rangeIndexPattern(head); cell != nil {
 		if cells, ok := u.frameOf(st, fr).locals[cell]; ok {
 			env.vars["$k"] = intVal(cells[0])
@@ -197,7 +204,7 @@ func (u *Unit) enterLoopHead(st *State, fr *Frame, head *ssa.BasicBlock, li *loo
 	}
 	// discovery of the loop's write set
 	threshold := u.freshN
-	ws := &writeSet{locals: map[*ssa.Alloc]bool{}, comps: map[string][]Term{}, whole: map[string]bool{}, depth: len(st.frames), threshold: threshold}
+	ws := &writeSet{locals: map[*ssa.Alloc]bool{}, comps: map[string][]Term{}, whole: map[string]bool{}, depth: len(st.frames), threshold: threshold, iters: map[*ssa.Range]bool{}}
 	{
 		d := st.clone()
 		d.discover = ws
@@ -276,6 +283,18 @@ func (u *Unit) enterLoopHead(st *State, fr *Frame, head *ssa.BasicBlock, li *loo
 	}
 	for _, p := range phis {
 		fr.regs[p] = u.freshVal(st, "phi_"+p.Name(), p.Type())
+	}
+	for rg := range ws.iters {
+		if _, ok := st.iters[rg]; ok {
+			np := u.fresh(st, "itpos", "Int")
+			if rv, ok := fr.regs[rg]; ok && rv.Inner != nil {
+				st.assume(fmt.Sprintf("(and (<= 0 %s) (<= %s (slen %s)))", np, np, rv.Inner.Terms[0]))
+			}
+			st.setIter(rg, np)
+			if st.discover != nil {
+				st.discover.iters[rg] = true
+			}
+		}
 	}
 	u.bumpAlloc(st)
 	fr.prev = from
